@@ -588,9 +588,14 @@ def _do_vbox(case):
     shape, fmts, types = case["shape"], case["formats"], case["types"]
     n = len(shape)
     locs = [f"disk {i}-ü.{fmts[i].lower()}" for i in range(n)]
+    # the second disk's location is written with character references (hexadecimal, decimal) and the predefined entity
+    xml_locs = list(locs)
+    if n > 1:
+        locs[1] = f"R&D/bäck & up <1>.{fmts[1].lower()}"
+        xml_locs[1] = f"R&#x26;D/b&#xE4;ck &#38; up &lt;1&#x3e;.{fmts[1].lower()}"
 
     def emit(i, indent):
-        attrs = f'uuid="{{0000000{i}-0000-0000-0000-000000000000}}" location="{locs[i]}" format="{fmts[i]}"'
+        attrs = f'uuid="{{0000000{i}-0000-0000-0000-000000000000}}" location="{xml_locs[i]}" format="{fmts[i]}"'
         if types[i] is not None:
             attrs += f' type="{types[i]}"'
         kids = [k for k in range(n) if shape[k] == i]
@@ -650,8 +655,11 @@ def _do_pvs(case):
     exp = []
     for i, d in enumerate(case["devs"]):
         name = {"Hdd": f"Fedora-{i} ü.hdd", "CdRom": f"install-{i}.iso", "Fdd": f"floppy-{i}.fdd"}[d]
-        x += [f'  <{d} dyn_lists="Partition 0" id="{i}">', f"   <Index>{i}</Index>", f"   <SystemName>{name}</SystemName>",
-              f"   <UserFriendlyName>{name}</UserFriendlyName>", f"  </{d}>"]
+        # physical / Boot Camp disks list their partitions, each with a SystemName of its own (a device node, not a disk image)
+        part = [f'   <Partition id="{k}"><SystemName>/dev/disk{i}s{k + 1}</SystemName></Partition>' for k in range(2)]
+        x += [f'  <{d} dyn_lists="Partition 0" id="{i}">', f"   <Index>{i}</Index>"] + (part if i % 4 == 1 else []) + [
+            f"   <SystemName>{name}</SystemName>", f"   <UserFriendlyName>{name}</UserFriendlyName>"] + (part if i % 4 == 3 else []) + [
+            f"  </{d}>"]
         if d == "Hdd":
             exp.append(name)
     x += [" </Hardware>", "</ParallelsVirtualMachine>"]
